@@ -98,6 +98,18 @@ CHECKS["C10"] = dict(
     design="§7 C10",
 )
 
+CHECKS["C05"] = dict(
+    text=("Lean: kernel_mask_eq_filter - for every kernel, dtype class, mask kind (boolean, slice with None/negative bounds, positions with repeats/negatives), "
+          "thread count and value chunking the masked group kernel returns what the unmasked kernel returns on rows[mask] (from the end-to-end kernel theorem "
+          "groupKernel_eq_def, which includes the proof that the dispatch's blocks concatenate to rows[mask]); unselected_rows_inert; for row-aligned "
+          "operations cum_mask_eq_filter and rolling_sum/mean_mask_eq_filter: at every selected row the masked run equals the run on the filtered data at the "
+          "row's rank. Metamorphic correspondence on the public API for every maskable operation (reductions incl. var/std/median, cumulative, rolling, "
+          "shift/diff, EMA plain and timed) plus overwrite-unselected-values test."),
+    note="Rolling min/max, shift/diff and the EMA kernels are covered by the metamorphic run only; the public pipeline above the kernels (observed filter under a mask) by correspondence. Open findings: untimed EMA treats masked rows as null values (pinned by tests); median/apply with an empty selection raises.",
+    technique="Lean 4 proof (corollaries of the kernel contract and of the prefix theorems; list rank/filter lemma) + metamorphic differential testing of masked vs filtered executions",
+    design="§7 C05",
+)
+
 NOT_APPLICABLE: list[dict] = []
 
 
